@@ -782,12 +782,18 @@ def _run(tier, seed):
                  f"{list(MASKS)}: same contents (identity) and same error as a plain list, unchanged on error, focus None iff empty / in range / following its item "
                  "(spec/focus.py), the list's modified callback exactly once per successful content-changing call (<= 1 otherwise) and after the mutation, never on "
                  "failure, the container's own callback run as often, its selectability and focus widget those of the new contents, focus-changed exactly when the "
-                 "index changes; a refused item raises the container's error and changes nothing; distinct = (client, mask, n, focus, op)", True, bound)
+                 "index changes; a refused item raises the container's error and changes nothing; plus whole-list ASSIGNMENT through the `contents` property "
+                 f"setter with the values {list(ASSIGN_KINDS)} and, refused, {list(BAD_ASSIGN_KINDS)} ('self' = the very list object, 'view' = a Collection reading "
+                 "the list lazily): one `[:] = value` on the SAME list object; distinct = (client, mask, n, focus, op)", True, bound)
     out.append(_spread(cont, [(client, variant, cmaxn, steps, True, raw_upto) for client in ("pile", "columns", "gridflow") for variant in CLIENTS[client].variants]))
     walk = Check("C16/list-walkers", "the same family on SimpleFocusListWalker (without / with a user focus-changed callback) and SimpleListWalker with a connected "
                  "'modified' subscriber: same contents and errors as a plain list, unchanged on error, the signal exactly once per successful content-changing call "
                  "(<= 1 otherwise) and after the mutation, never on failure; SimpleFocusListWalker: the statement's focus rule; SimpleListWalker: focus in range; "
-                 "distinct = (client, variant, n, focus, op)", True, bound)
+                 f"whole-list assignment `[:] = value` with {list(ASSIGN_KINDS)}; and RE-ENTRANT / FAULTY subscribers: a scripted subscriber that on its k-th "
+                 f"notification does one of {list(HANDLER_ACTIONS)} (a call on the walker from inside the notification, or raise), under every outer history over "
+                 f"{list(RE_OPS)}: contents as a plain list, and every successful content-changing call -- nested or after a fault -- notified exactly once, at once; "
+                 "distinct = (client, variant, n, focus, op) / (client, n, focus, script, history)", True,
+                 bound + "; re-entrant family: list length <= 3 (quick) / 4, script length (= nesting depth) <= 2 / 3, outer history length 2 / 3, focus first or last")
     re_bound = (3, 2, 2) if tier == "quick" else (4, 3, 3)  # (list length, subscriber script length = nesting depth, outer history length)
     out.append(_spread(walk, [(client, variant, cmaxn, steps, False, raw_upto) for client in ("sflw", "slw") for variant in CLIENTS[client].variants]
                        + [(client, "reentrant", re_bound, None, False, None) for client in ("sflw", "slw")]))
